@@ -294,10 +294,11 @@ class CSSImportRule(cssrule.CSSRule):
                 # use cwd instead
                 parentHref = cssutils.helper.path2url(os.getcwd()) + '/'
 
-            fullhref = urllib.parse.urljoin(parentHref, self.href)
-
             # all possible exceptions are ignored
             try:
+                # e.g. ValueError for an invalid IPv6 address
+                fullhref = urllib.parse.urljoin(parentHref, self.href)
+
                 # a sheet (indirectly) importing itself would recurse without end
                 ancestor = self.parentStyleSheet
                 while ancestor is not None:
